@@ -720,6 +720,29 @@ META = {
                         'imputations return the sentinel',
                   strengthened='C19 library class "imputer": a 7x3 lazy manager per registered imputer, the same request '
                                'under a limit of a fifth of its undisturbed duration and then without a limit'),
+    # ---- tenth round (four properties) ----
+    'C03-j': dict(breaks='C03', file='adsg_core/optimization/hierarchy/fast.py (FastHierarchyAnalyzer.get_graph, "Make choice")',
+                  change='the option is picked from the options still available in the partially resolved graph, by the '
+                         'index that refers to the full option list',
+                  needs='fast encoder, an option-removing constraint (PERMUTATION / UNORDERED / UNORDERED_NOREPL) and a '
+                        'later index 0 < i < number of remaining options',
+                  strengthened=None),
+    'C12-j': dict(breaks='C12 (manager level: C10)', file='adsg_core/optimization/assign_enc/lazy_encoding.py (LazyImputer.impute cache key)',
+                  change='same edit as C03-h, found independently: the imputation memo is keyed on existence masks only',
+                  needs='scenarios with the same connectors existing and different degree overrides, a lazy encoder '
+                        'selected, the same vector decoded under both scenarios on one manager',
+                  strengthened='C12 override-only family: 12 settings whose two scenarios differ only in an override, '
+                               'selected with the candidate faults that leave only lazy encoders; C10 caught it from '
+                               'the start. Running it also exposed a load-dependent verdict of C12 (variables for a '
+                               'single connection set under a 2 ms limit), now counted instead of judged (section 7)'),
+    'C15-j': dict(breaks='C15', file='adsg_core/optimization/graph_processor.py (_existence_mask)',
+                  change='the fixed-value mask is ANDed into the memoised infeasibility mask in place',
+                  needs='complete encoder, a selection variable fixed, a decode or enumeration while fixed, then free',
+                  strengthened=None),
+    'C17-j': dict(breaks='C17', file='adsg_core/optimization/graph_processor.py (_can_be_objective)',
+                  change='a declared CONSTRAINT type vetoes objective eligibility also when the metric has no reference',
+                  needs='a permanent metric with a direction, no reference and type_=CONSTRAINT: silently dropped',
+                  strengthened=None),
 }
 
 
